@@ -5,6 +5,36 @@ from twisted.internet.testing import StringTransport
 from twisted.python.failure import Failure
 
 
+class PausingTransport(StringTransport):
+  """StringTransport that, like twisted's FileDescriptor, pauses its streaming producer from inside write() once more
+  than `hw` bytes are waiting to be flushed.  `flush()` models the socket draining."""
+
+  def __init__(self, hw=None):
+    StringTransport.__init__(self)
+    self.hw = hw
+    self.unflushed = 0
+    self.pauses_from_write = 0
+
+  def _wrote(self, n):
+    self.unflushed += n
+    if self.hw is not None and self.unflushed > self.hw and self.producer is not None and self.streaming:
+      if not getattr(self.producer, 'paused', False):
+        self.pauses_from_write += 1
+        self.producer.pauseProducing()
+
+  def write(self, data):
+    StringTransport.write(self, data)
+    self._wrote(len(data))
+
+  def writeSequence(self, data):
+    data = list(data)
+    StringTransport.writeSequence(self, data)
+    self._wrote(sum(len(x) for x in data))
+
+  def flush(self):
+    self.unflushed = 0
+
+
 class FakeConnector(object):
   """Mimics twisted.internet.base.BaseConnector closely enough for ReconnectingClientFactory."""
 
@@ -56,7 +86,7 @@ class FakeConnector(object):
     self.state = 'connected'
     proto = self.factory.buildProtocol(self.getDestination())
     self.protocol = proto
-    t = StringTransport()
+    t = PausingTransport(getattr(self.reactor, 'transport_hw', None))
     self.transport = t
     self.reactor.transports.append((self, t))
     proto.makeConnection(t)
